@@ -56,7 +56,10 @@ def main():
     n_rounds = max(int(r[0].split("-")[1]) for r in rows) // 2 if rows else 0
     out.append("\nThe seeds were written in %d rounds (x-1/x-2 … x-%d/x-%d), each round's authors being told what the earlier "
                "rounds had changed. After every round the seeds a check missed, or reported without an input, were used to strengthen "
-               "that check's generators and oracle (never its verdict rule), and the whole sweep was repeated. On the last sweep "
+               "that check's generators and oracle (never its verdict rule), and the seeds concerned were swept again (all of them through "
+               "round 5; from round 6 on the round's own seeds and those of every property whose harness, model or framework path "
+               "changed; at the end every seed was run once more against the harness and the model in scratch clones, "
+               "tools/mkcorpus.py). On the last sweep "
                "%d of %d seeded changes make their property's quick check exit 1; %d are reported with a concrete failing input on the "
                "real (changed) code%s. %s end in `no-failing-input-found`: the change breaks a Tie A theorem and the correspondence "
                "(the code is no longer what the model describes), but on every explored input the property's own oracle still holds "
@@ -69,7 +72,7 @@ def main():
                "the diminished unisons b1/bb1 (-1 and -2 semitones, outside the stated sizes 0-11), C08-21 changes the roots "
                "that the recursive substitute() combines, of which the statement promises nothing (the four documented rules are "
                "judged), C08-24 offers one harmonic substitute for VI instead of two (the statement speaks of what the returned ones "
-               "share with the original), C09-23 changes the analysis of a septuplet perturbed upward (outside the 1 % clause), "
+               "share with the original), C09-23 changes the analysis of a septuplet perturbed upward (outside the 1 %% clause), "
                "see 0.3b), so "
                "the report names the theorems that no longer check, as the brief prescribes." % (
                    n_rounds, 2 * n_rounds - 1, 2 * n_rounds, n_all - len(missed), n_all, n_conc, "" if not missed else "; not reported: " + ", ".join(missed) +
